@@ -86,10 +86,12 @@ func TestD14_RealTransportPeerClosesWithoutReply(t *testing.T) {
 			ctx, cancel := context.WithTimeout(context.Background(), 10*time.Second)
 			str, err := cli.ServerStream(ctx, &grpchantesting.Message{})
 			if err != nil {
+				// The stub's SendMsg failed. Since the D27 repair a send that is cut short by the
+				// completion of the call reports io.EOF, as grpc-go's SendMsg does for every failure
+				// it did not generate itself ("the status of the stream may be discovered using
+				// RecvMsg"); the generated stub hands that error back. That is an error return of
+				// ServerStream(), not a stream that ended successfully, so it is only logged.
 				t.Logf("keepalive=%v #%d: ServerStream error: %v (%T)", keepAlive, i, err, err)
-				if err == io.EOF {
-					t.Errorf("keepalive=%v #%d: ServerStream returned io.EOF", keepAlive, i)
-				}
 				cancel()
 				continue
 			}
